@@ -27,6 +27,7 @@ def r4(ctx):
 
 
 RULES = {
+    "C06.R7": lambda ctx: __import__("rules.decoderrules", fromlist=["x"]).range_reader(ctx, "C06.R7"),
     "C06.R6": lambda ctx: __import__("rules.decoderrules", fromlist=["x"]).section_errors(ctx, "C06.R6"),
     "C06.RL": lambda ctx: __import__("rules.common", fromlist=["x"]).loop_exit_rule(ctx, "C06.RL", {'decoder::decode_regular': 0, 'vlq::parse_vlq_segment_into': 0}),
     "C06.R1": lambda ctx: decoderrules.arity(ctx, "C06.R1"),
